@@ -144,6 +144,13 @@ func (k *Keeper) UndelegateFrom(ctx sdk.Context, params *delegationtype.Delegati
 		ActualCompletedAmount: removeToken,
 	}
 	r.CompleteBlockNumber = k.operatorKeeper.GetUnbondingExpirationBlockNumber(ctx, params.OperatorAddress, r.BlockNumber)
+	// the record key is (operator, height, nonce, tx hash): a second undelegation from the same
+	// operator within one transaction (the operator listed twice in a message, or two messages)
+	// would silently overwrite the first record while the pending amounts count both.
+	recordKey := delegationtype.GetUndelegationRecordKey(r.BlockNumber, r.LzTxNonce, r.TxHash, r.OperatorAddr)
+	if existing, _ := k.GetUndelegationRecords(ctx, []string{string(recordKey)}); len(existing) > 0 {
+		return errorsmod.Wrapf(delegationtype.ErrUndelegationRecordExists, "key:%s", recordKey)
+	}
 	err = k.SetUndelegationRecords(ctx, []delegationtype.UndelegationRecord{r})
 	if err != nil {
 		return err
